@@ -45,9 +45,15 @@ def r1(ctx):
         return
     cur = [bb for bb, i, s in b.all_stmts() if _is_some_write(b, s, "turmoil::world::World::current")]
     ent = [(bb, t) for bb, t in b.calls("turmoil::world::World::enter")]
-    ok = bool(cur) and len(ent) == 1 and b.dominated_by_any(ent[0][0], blocks=cur)
-    ctx.inst(R, "crash:current-before-enter", ok, ent[0][1]["s"] if ent else b.span, "the crashed host is current while its tasks are dropped" if ok else
-             "Sim::crash does not set World::current to the host before entering the world: socket destructors of the dropped tasks cannot find their host")
+    via = [(bb, t) for bb, t in b.calls(re.compile(r"Sim::run_with_hosts$"))]
+    if via and not ent:
+        # accepted idiom: crash delegates the "set current, enter the world" part to run_with_hosts (checked below, shared with bounce)
+        ctx.ok(R, "crash:current-before-enter", via[0][1]["s"], "crash runs inside run_with_hosts (current host set and world entered there)")
+        ent = via
+    else:
+        ok = bool(cur) and len(ent) == 1 and b.dominated_by_any(ent[0][0], blocks=cur)
+        ctx.inst(R, "crash:current-before-enter", ok, ent[0][1]["s"] if ent else b.span, "the crashed host is current while its tasks are dropped" if ok else
+                 "Sim::crash does not set World::current to the host before entering the world: socket destructors of the dropped tasks cannot find their host")
     if not ent:
         return
     cls = [ctx.w.bodies[c] for c in closure_args(b, ent[0][1]) if c in ctx.w.bodies]
@@ -99,6 +105,13 @@ def r2(ctx):
             for f in ("tokio", "local"):
                 if f"field:turmoil::rt::Rt::{f}" in a0 and "call:turmoil::rt::init" in a1:
                     rep[f] = bb
+        for bb, i, s in ct.all_stmts():
+            # accepted idiom: plain assignment `self.tokio = tokio` (the old value is dropped in place)
+            lf = place_last_field(s["p"])
+            for f in ("tokio", "local"):
+                if lf == f"turmoil::rt::Rt::{f}" and isinstance(s["p"]["p"][-1], dict) and s["p"]["p"][-1].get("f") == f and s["r"]["k"] == "use":
+                    if "call:turmoil::rt::init" in Slicer(ctx.w).atoms(ct, s["r"]["o"]):
+                        rep[f] = bb
         for f in ("tokio", "local"):
             ok = f in rep and not always_passes(ct, [rep[f]])
             ctx.inst(R, f"cancel_tasks:replaces-{f}", ok, ct.span, f"Rt::{f} is replaced (its tasks are dropped)" if ok else
@@ -202,7 +215,9 @@ def r5(ctx):
         ok = len(fc) == 1 and len(sp) == 1 and len(w) == 1
         if fid.endswith("bounce") and ok:
             # the `with` call must be on every path where kind is Host (bounce panics otherwise)
-            st = [bb for bb, t in b.calls(re.compile(r"^std::option::Option::replace$")) if "field:turmoil::rt::Rt::handle" in Slicer(ctx.w).atoms(b, t["args"][0])]
+            st = [bb for bb, t in b.calls(re.compile(r"^std::option::Option::(replace|insert)$")) if "field:turmoil::rt::Rt::handle" in Slicer(ctx.w).atoms(b, t["args"][0])]
+            st += [bb for bb, i, s2 in b.all_stmts() if place_last_field(s2["p"]) == "turmoil::rt::Rt::handle" and s2["p"]["p"][-1].get("f") == "handle"
+                   and "call:turmoil::rt::with" in Slicer(ctx.w).atoms(b, s2["r"].get("o", {}))]
             ok = bool(st) and all(b.dominated_by_block(x, w[0]) for x in st)
         ctx.inst(R, f"{fid}:starts-once", ok, b.span, "software factory called once, spawned once, handle stored" if ok else
                  f"`{fid}`: the software factory is not called exactly once and spawned exactly once per call ({len(fc)} factory call(s), {len(sp)} spawn(s))")
